@@ -579,6 +579,29 @@ def make_template(pat, rep, **kw):
     return Transformer(p, r, **kw)
 
 
+def traced_patcher(t, structure, mapping):
+    """the real _patcher; the stereo labels of the product are also read at the moment _patcher calls new.fix_stereo(), i.e.
+    BEFORE fix_stereo can drop any (from the frame of that call; /repo is not patched).  returns (product, labels or None)"""
+    from chython.reactor.base import BaseReactor
+    from chython.containers import MoleculeContainer
+    pcode = BaseReactor._patcher.__code__
+    fcode = MoleculeContainer.fix_stereo.__code__
+    box = {}
+
+    def tracer(frame, event, arg):
+        if frame.f_code is fcode and 'pre' not in box and frame.f_back is not None and frame.f_back.f_code is pcode:
+            me = frame.f_locals.get('self')
+            box['pre'] = ({n: a.stereo for n, a in me._atoms.items()}, {(n, k): bd.stereo for n, nb in me._bonds.items() for k, bd in nb.items()})
+        return None
+    old = sys.gettrace()
+    sys.settrace(tracer)
+    try:
+        new = t._patcher(structure, mapping)
+    finally:
+        sys.settrace(old)
+    return new, box.get('pre')
+
+
 def patch_case(ck, batch, t, structure, mapping, tag, describe):
     """call the real _patcher (ring/tautomer fixing off: it is not part of the structural model) and record the Coq case"""
     mapping = dict(mapping)
@@ -592,7 +615,7 @@ def patch_case(ck, batch, t, structure, mapping, tag, describe):
     t_term = batch.define('t', tpl_term(t._replacement))
     rebuilt = '[]'
     try:
-        new = t._patcher(structure, mapping)
+        new, pre = traced_patcher(structure=structure, t=t, mapping=mapping)
         res = f'Ok ({coqmol.mol_term(new)}, {pairs(mapping)})'
         ok = True
         rebuilt = lst([tup(zraw(n), opt(h, zraw)) for n, h in rebuilt_hydrogens(new).items()])
@@ -602,44 +625,52 @@ def patch_case(ck, batch, t, structure, mapping, tag, describe):
         new = None
     batch.add(f'patch_res_h_eqb {rebuilt} (patcher_with {MODEL_FUNCTION} {m_term} {before} {zl(to_del)} {t_term}) ({res})',
               {'kind': tag, 'input': describe, 'observed': res[:200]}, ctx=(t, structure, dict(mapping0), describe))
-    if new is not None:
-        # untouched stereogenic tetrahedrons: order of the environment and the label of the product (fix_stereo may only drop it)
+    if new is not None and pre is None and not t._fix_rings:
+        ck.count('patcher:labels-before-fix_stereo-not-observable')
+        batch.unobservable += 1
+    if new is not None and pre is not None:
+        pre_atoms, pre_bonds = pre
+        # untouched stereogenic tetrahedrons: order of the environment and the label _patcher stored (read before fix_stereo)
         try:
             sth = structure.stereogenic_tetrahedrons
             gone = t._get_deleted(structure, dict(mapping0))
         except Exception:
             sth, gone = {}, set()
         named = {mapping0.get(k) for k in t._replacement} - {None}
-        obs = [(n, sth[n], new._atoms[n].stereo) for n, a in structure.atoms()
+        obs = [(n, sth[n], pre_atoms.get(n)) for n, a in structure.atoms()
                if n in sth and a.stereo is not None and n not in named and n not in gone and n in new._atoms]
         if obs:
             from chython.periodictable import H
             hs = [n for n, a in structure.atoms() if a == H]
-            batch.add(f'stereo_case_eqb {zl(list(sth))} {zl(hs)} {m_term} {lst([tup(tup(zraw(n), zl(env)), opt(lab, b)) for n, env, lab in obs])}',
-                      {'kind': 'untouched stereo labels', 'input': describe, 'observed': [(n, lab) for n, _, lab in obs]}, ctx=(t, structure, dict(mapping0), describe))
-            ck.count('patcher:untouched-stereocentres:label ' + ('kept' if all(lab is not None for _, _, lab in obs) else 'dropped by fix_stereo'))
-        # untouched cis/trans bonds and allenes (every atom of the cumulene chain untouched): registry entry of the input and the
-        # label of the product (re-computed by the translation loop of _patcher; fix_stereo may only drop it)
+            batch.add(f'stereo_case_exact {zl(list(sth))} {zl(hs)} {m_term} {lst([tup(tup(zraw(n), zl(env)), opt(lab, b)) for n, env, lab in obs])}',
+                      {'kind': 'untouched stereo labels (before fix_stereo)', 'input': describe, 'observed': [(n, lab) for n, _, lab in obs]}, ctx=(t, structure, dict(mapping0), describe))
+            ck.count('patcher:untouched-stereocentres:' + ('label stored' if all(lab is not None for _, _, lab in obs) else 'no label stored'))
+        # labelled cis/trans bonds and allenes of the input whose chain survives with the same bond orders and is a registered
+        # cumulene of the product (from either end; one or both terminal atoms may be named by the replacement): registry entry of
+        # the input and the label the translation loop of _patcher stored (read before fix_stereo)
         try:
-            cums = structure.stereogenic_cumulenes
+            cums, ncums = structure.stereogenic_cumulenes, new.stereogenic_cumulenes
         except Exception:
-            cums = {}
+            cums, ncums = {}, {}
         for path, env in cums.items():
-            if any(x in named or x in gone or x not in new._atoms for x in path):
+            if any(x in gone or x not in new._atoms for x in path) or (path not in ncums and path[::-1] not in ncums):
+                continue
+            if any(y not in new._bonds[x] or int(new._bonds[x][y]) != int(structure._bonds[x][y]) for x, y in zip(path, path[1:])):
                 continue
             i = len(path) // 2
             if len(path) % 2:
-                old, real = structure._atoms[path[i]].stereo, new._atoms[path[i]].stereo
+                old, real = structure._atoms[path[i]].stereo, pre_atoms.get(path[i])
             else:
-                old = structure._bonds[path[i - 1]][path[i]].stereo
-                bd = new._bonds[path[i - 1]].get(path[i])
-                real = None if bd is None else bd.stereo
+                old, real = structure._bonds[path[i - 1]][path[i]].stereo, pre_bonds.get((path[i - 1], path[i]))
             if old is None:
                 continue
+            touched = 'untouched' if not any(x in named for x in path) else 'terminal named by the replacement' if (path[0] in named) != (path[-1] in named) else 'named'
             env_t = f'(Some ({zraw(env[0])}, {zraw(env[1])}, {opt(env[2], zraw)}, {opt(env[3], zraw)}))'
-            batch.add(f'cum_case_run {m_term} {before} {zl(to_del)} {t_term} {zraw(path[0])} {zraw(path[1])} {zraw(path[-2])} {zraw(path[-1])} {b(old)} {env_t} {opt(real, b)}',
-                      {'kind': 'untouched cumulene label', 'input': describe, 'path': path, 'old': old, 'real': real}, ctx=(t, structure, dict(mapping0), describe))
-            ck.count('patcher:untouched-' + ('allene' if len(path) % 2 else 'cis/trans') + ':label ' + ('kept' if real is not None else 'dropped by fix_stereo'))
+            batch.add(f'cum_case_exact {m_term} {before} {zl(to_del)} {t_term} {zraw(path[0])} {zraw(path[1])} {zraw(path[-2])} {zraw(path[-1])} {b(old)} {env_t} {opt(real, b)}',
+                      {'kind': 'cumulene label (before fix_stereo)', 'input': describe, 'path': path, 'old': old, 'stored': real, 'chain': touched,
+                       'product_lists_it_reversed': path not in ncums}, ctx=(t, structure, dict(mapping0), describe))
+            ck.count('patcher:' + ('allene' if len(path) % 2 else 'cis/trans') + f':{touched}:' + ('read from the other end:' if path not in ncums else '') +
+                     ('label stored' if real is not None else 'no label stored'))
     ck.count(f'patcher:{tag}:' + ('ok' if ok else res))
     ck.case(('patch', tag, describe, before), nontrivial=ok)
     return new
